@@ -77,3 +77,24 @@ Proof.
               (perm_swap _ _ _) c8_blocks_ok E) as (r & r' & I1 & I2 & _ & F0 & HF).
   exists r, r'. split; [exact I1|]. split; [exact I2|]. exists F0. intros F HF0. destruct (HF F HF0) as (ls' & p' & E' & Hiso). exists ls', p'. split; [exact E'|]. rewrite <- Hg. exact Hiso.
 Qed.
+
+(* ---- outside the fragment: with a location debug attribute the stanza order IS observable ----
+       global r
+       (module) @_m { edge r -> r }     (statement at line 2)
+       (module) @_m { edge r -> r }     (statement at line 6)
+   LazyCreateEdge::evaluate gives a NEW edge the debug attributes of the statement being evaluated and leaves an existing edge
+   alone (`if let Ok(edge) = graph[source].add_edge(sink) { edge.attributes = self.attributes.clone(); }`), and the deferred edge
+   statements are evaluated in stanza order: the edge carries the location of the stanza that comes first. *)
+Definition dx_file : file :=
+  {| f_globals := [{| gl_name := [114]; gl_quant := QOne; gl_default := None; gl_loc := (0, 0) |}]; f_inherited := []; f_shorthands := [];
+     f_stanzas := [
+       {| st_stmts := [SEdge (EUnscoped [114] (0, 0)) (EUnscoped [114] (0, 0)) (1, 2)]; st_full_stanza_idx := 0; st_full_file_idx := 0; st_start := (0, 0) |};
+       {| st_stmts := [SEdge (EUnscoped [114] (0, 0)) (EUnscoped [114] (0, 0)) (5, 2)]; st_full_stanza_idx := 0; st_full_file_idx := 0; st_start := (0, 0) |} ] |}.
+Definition dx_cfg : config := {| c_loc_attr := Some [108]; c_var_attr := None; c_match_attr := None |}.
+Definition dx_run (ms : list (N * qmatch)) : outcome exec_error graph :=
+  lgraph_of (run_lazy k7_tree dx_file dx_cfg [[([114], VGraph 0)]] None ([] : list regex) rx_captures (the_call k7_tree []) default_fuel ms [new_gnode]).
+Definition dx_loc (line : N) : str := [108; 105; 110; 101; 32; line; 32; 99; 111; 108; 117; 109; 110; 32; 51].   (* "line <d> column 3" *)
+Lemma dx_order_observable :
+  dx_run [(0, c8_m); (1, c8_m)] = Ok [{| g_attrs := []; g_edges := [(0, [([108], VStr (dx_loc 50))])] |}] /\
+  dx_run [(1, c8_m); (0, c8_m)] = Ok [{| g_attrs := []; g_edges := [(0, [([108], VStr (dx_loc 54))])] |}].
+Proof. split; vm_compute; reflexivity. Qed.
